@@ -886,8 +886,9 @@ subroutine solve(initial_values, indexes,                                       
            return
         end if
 
-     ! Errors: Raise as required
-     else if(error_control == error_control_raise) then
+     ! Errors: Stop here (leaving later periods untouched, as in the Python
+     ! version) unless this is a numerical error the caller asked to skip
+     else if(.not. (error_code == numerical_error_skip .and. error_control == error_control_skip)) then
         return
      end if
 
